@@ -91,8 +91,8 @@ class CliSampler:
         self.sb, self.rnd, self.out, self.n = sb, rnd, [], 0
         self.errors = []
 
-    def pna(self, args, stdin=None):
-        r = cli.run_pna(args, self.sb.root, timeout=60, stdin=stdin)
+    def pna(self, args, stdin=None, cwd=None):
+        r = cli.run_pna(args, cwd or self.sb.root, timeout=60, stdin=stdin, env={"TMPDIR": self.sb.root} if cwd else None)
         if r["rc"] != 0:
             self.errors.append((r["cmd"], r["rc"], r["err"].decode("utf-8", "replace")[-300:]))
         return r
@@ -140,6 +140,12 @@ class CliSampler:
             r = self.pna(base); hist.append(cmdtext(base))
             if r["rc"] == 0:
                 self.record("cli:create", [d + "/a.pna"], pw, exp, hist)
+        elif kind == "dot":
+            # the current directory itself as the source: `.` names no entry (it used to be written with the empty name)
+            a = ["create", "../a.pna", "-r", rnd.choice([".", "./"]), "--quiet"] + codec + enc + keep + (["--solid"] if rnd.random() < 0.3 else [])
+            r = self.pna(a, cwd=self.sb.path(d, "src")); hist.append("cd %s/src && %s" % (d, cmdtext(a)))
+            if r["rc"] == 0:
+                self.record("cli:create-dot", [d + "/a.pna"], pw, tree_expect(self.sb.path(d, "src"), "", kd), hist)
         elif kind == "solid":
             a = base + ["--solid"]
             r = self.pna(a); hist.append(cmdtext(a))
@@ -244,7 +250,7 @@ class CliSampler:
                     self.record("cli:stdio-file", [d + "/a.pna"], pw, exp, hist)
 
 
-KINDS = ["create", "solid", "split", "append", "update", "edit", "edit", "concat", "splitcmd", "stdio", "create", "solid"]
+KINDS = ["create", "solid", "split", "append", "update", "edit", "edit", "concat", "splitcmd", "stdio", "create", "solid", "dot"]
 
 
 def check_file(c, f, cases, impl_outcomes, stats):
